@@ -1,43 +1,236 @@
 import UtilModel.Lemmas.UUText
-import Std.Tactic.BVDecide
-/-! # Bit-level lemmas about `RandomID` (the only users of `bv_decide`) -/
+/-! # Bit-level lemmas about `RandomID`
+
+Kernel-only proofs (no `bv_decide`): every statement is reduced to statements about single bits
+(`BitVec.getLsbD`), the bits of the literal masks are computed once by `decide` over the 64 positions
+(`lit_bits`), and the remaining Boolean/linear-arithmetic goals are closed by `grind`. -/
 namespace U.UU
 open U
 
-/-- version bits of a random ID (bv_decide) -/
-theorem rnd_version_bv (a b lo : BitVec 64) : Gen.uu_version (Gen.uu_rndHigher a b) lo = 4#64 := by
-  simp only [Gen.uu_version, Gen.uu_rndHigher]; bv_decide
+/-- bits of a 64-bit literal: check the 64 positions by kernel evaluation, the rest is out of range -/
+private theorem lit_bits (m : BitVec 64) (p : Nat → Bool)
+    (h : ∀ i : Fin 64, m.getLsbD i.val = p i.val) (hp : ∀ i, 64 ≤ i → p i = false) (i : Nat) :
+    m.getLsbD i = p i := by
+  by_cases hi : i < 64
+  · exact h ⟨i, hi⟩
+  · rw [hp i (by omega)]; exact BitVec.getLsbD_of_ge _ _ (by omega)
 
-/-- top two bits of `Lower` of a random ID built from a 63-bit draw (bv_decide) -/
+private theorem bit_fff (i : Nat) : (4095#64).getLsbD i = decide (i < 12) :=
+  lit_bits _ (fun i => decide (i < 12)) (by decide) (by intro i h; simp; omega) i
+private theorem bit_f (i : Nat) : (15#64).getLsbD i = decide (i < 4) :=
+  lit_bits _ (fun i => decide (i < 4)) (by decide) (by intro i h; simp; omega) i
+private theorem bit_4000 (i : Nat) : (16384#64).getLsbD i = decide (i = 14) :=
+  lit_bits _ (fun i => decide (i = 14)) (by decide) (by intro i h; simp; omega) i
+private theorem bit_4 (i : Nat) : (4#64).getLsbD i = decide (i = 2) :=
+  lit_bits _ (fun i => decide (i = 2)) (by decide) (by intro i h; simp; omega) i
+private theorem bit_0 (i : Nat) : (0#64).getLsbD i = false := by simp
+private theorem bit_f000 (i : Nat) : (0xf000#64).getLsbD i = decide (12 ≤ i ∧ i < 16) :=
+  lit_bits _ (fun i => decide (12 ≤ i ∧ i < 16)) (by decide) (by intro i h; simp; omega) i
+private theorem bit_hi48 (i : Nat) : (18446744073709518848#64).getLsbD i = decide (15 ≤ i ∧ i < 64) :=
+  lit_bits _ (fun i => decide (15 ≤ i ∧ i < 64)) (by decide) (by intro i h; simp; omega) i
+private theorem bit_mid48 (i : Nat) : (0x7fffffffffff8000#64).getLsbD i = decide (15 ≤ i ∧ i < 63) :=
+  lit_bits _ (fun i => decide (15 ≤ i ∧ i < 63)) (by decide) (by intro i h; simp; omega) i
+private theorem bit_63 (i : Nat) : (9223372036854775808#64).getLsbD i = decide (i = 63) :=
+  lit_bits _ (fun i => decide (i = 63)) (by decide) (by intro i h; simp; omega) i
+private theorem bit_62 (i : Nat) : (4611686018427387904#64).getLsbD i = decide (i = 62) :=
+  lit_bits _ (fun i => decide (i = 62)) (by decide) (by intro i h; simp; omega) i
+private theorem bit_top2 (i : Nat) : (0xc000000000000000#64).getLsbD i = decide (62 ≤ i ∧ i < 64) :=
+  lit_bits _ (fun i => decide (62 ≤ i ∧ i < 64)) (by decide) (by intro i h; simp; omega) i
+
+/-- equality of 64-bit vectors, bit by bit -/
+private theorem eq_iff_bits (x y : BitVec 64) : x = y ↔ ∀ i, i < 64 → x.getLsbD i = y.getLsbD i :=
+  ⟨fun h _ _ => h ▸ rfl, BitVec.eq_of_getLsbD_eq⟩
+
+/-- `x &&& (1 <<< k) = 0` iff bit `k` is clear, for a mask with a single set bit -/
+private theorem and_single_eq_zero (x m : BitVec 64) (k : Nat) (hk : k < 64)
+    (hm : ∀ i, m.getLsbD i = decide (i = k)) : x &&& m = 0#64 ↔ x.getLsbD k = false := by
+  rw [eq_iff_bits]
+  simp only [BitVec.getLsbD_and, hm, bit_0]
+  constructor
+  · intro h; have := h k hk; simpa using this
+  · intro h i hi
+    by_cases hik : i = k
+    · subst hik; simp [h]
+    · simp [hik]
+
+private theorem and63_ne_zero (l : BitVec 64) : l &&& 9223372036854775808#64 ≠ 0#64 ↔ l.getLsbD 63 = true := by
+  rw [ne_eq, and_single_eq_zero l _ 63 (by omega) bit_63]; simp
+private theorem and62_eq_zero (l : BitVec 64) : l &&& 4611686018427387904#64 = 0#64 ↔ l.getLsbD 62 = false :=
+  and_single_eq_zero l _ 62 (by omega) bit_62
+
+private theorem version_bits (h : BitVec 64) : (h >>> 12) &&& 15#64 = 4#64 ↔
+    h.getLsbD 12 = false ∧ h.getLsbD 13 = false ∧ h.getLsbD 14 = true ∧ h.getLsbD 15 = false := by
+  rw [eq_iff_bits]
+  simp only [BitVec.getLsbD_and, BitVec.getLsbD_ushiftRight, bit_f, bit_4]
+  constructor
+  · intro H
+    have h0 := H 0 (by omega); have h1 := H 1 (by omega); have h2 := H 2 (by omega); have h3 := H 3 (by omega)
+    grind
+  · rintro ⟨h0, h1, h2, h3⟩ i hi
+    rcases (by omega : i = 0 ∨ i = 1 ∨ i = 2 ∨ i = 3 ∨ 4 ≤ i) with rfl | rfl | rfl | rfl | h4
+    · grind
+    · grind
+    · grind
+    · grind
+    · grind
+
+private theorem and_f000_eq_zero (m : BitVec 64) : m &&& 0xf000#64 = 0#64 ↔
+    m.getLsbD 12 = false ∧ m.getLsbD 13 = false ∧ m.getLsbD 14 = false ∧ m.getLsbD 15 = false := by
+  rw [eq_iff_bits]
+  simp only [BitVec.getLsbD_and, bit_f000, bit_0]
+  constructor
+  · intro H
+    have h0 := H 12 (by omega); have h1 := H 13 (by omega); have h2 := H 14 (by omega); have h3 := H 15 (by omega)
+    grind
+  · rintro ⟨h0, h1, h2, h3⟩ i hi
+    rcases (by omega : i = 12 ∨ i = 13 ∨ i = 14 ∨ i = 15 ∨ ¬ (12 ≤ i ∧ i < 16)) with rfl | rfl | rfl | rfl | h4
+    · grind
+    · grind
+    · grind
+    · grind
+    · grind
+
+private theorem and_top2_eq_zero (m : BitVec 64) : m &&& 0xc000000000000000#64 = 0#64 ↔
+    m.getLsbD 62 = false ∧ m.getLsbD 63 = false := by
+  rw [eq_iff_bits]
+  simp only [BitVec.getLsbD_and, bit_top2, bit_0]
+  constructor
+  · intro H
+    have h0 := H 62 (by omega); have h1 := H 63 (by omega)
+    grind
+  · rintro ⟨h0, h1⟩ i hi
+    rcases (by omega : i = 62 ∨ i = 63 ∨ ¬ (62 ≤ i ∧ i < 64)) with rfl | rfl | h4
+    · grind
+    · grind
+    · grind
+
+private theorem and_top2_eq_top (x : BitVec 64) : x &&& 0xc000000000000000#64 = 0x8000000000000000#64 ↔
+    x.getLsbD 62 = false ∧ x.getLsbD 63 = true := by
+  rw [eq_iff_bits]
+  simp only [BitVec.getLsbD_and, bit_top2, bit_63]
+  constructor
+  · intro H
+    have h0 := H 62 (by omega); have h1 := H 63 (by omega)
+    grind
+  · rintro ⟨h0, h1⟩ i hi
+    rcases (by omega : i = 62 ∨ i = 63 ∨ i < 62) with rfl | rfl | h4
+    · grind
+    · grind
+    · grind
+
+private theorem and_f000_eq_4000 (x : BitVec 64) : x &&& 0xf000#64 = 0x4000#64 ↔
+    x.getLsbD 12 = false ∧ x.getLsbD 13 = false ∧ x.getLsbD 14 = true ∧ x.getLsbD 15 = false := by
+  rw [eq_iff_bits]
+  simp only [BitVec.getLsbD_and, bit_f000, bit_4000]
+  constructor
+  · intro H
+    have h0 := H 12 (by omega); have h1 := H 13 (by omega); have h2 := H 14 (by omega); have h3 := H 15 (by omega)
+    grind
+  · rintro ⟨h0, h1, h2, h3⟩ i hi
+    rcases (by omega : i = 12 ∨ i = 13 ∨ i = 14 ∨ i = 15 ∨ ¬ (12 ≤ i ∧ i < 16)) with rfl | rfl | rfl | rfl | h4
+    · grind
+    · grind
+    · grind
+    · grind
+    · grind
+
+/-- bits of `Higher` of a random ID -/
+private theorem rndHigher_bit (a b : BitVec 64) (i : Nat) : (Gen.uu_rndHigher a b).getLsbD i =
+    ((decide (16 ≤ i ∧ i < 64) && a.getLsbD (i - 1)) || decide (i = 14) || (decide (i < 12) && a.getLsbD i)) := by
+  simp only [Gen.uu_rndHigher, BitVec.getLsbD_and, BitVec.getLsbD_or, BitVec.getLsbD_shiftLeft,
+    bit_fff, bit_4000, bit_hi48]
+  grind
+
+/-- bits of `Lower` of a random ID -/
+private theorem rndLower_bit (a b : BitVec 64) (i : Nat) : (Gen.uu_rndLower a b).getLsbD i =
+    (b.getLsbD (i + 1) || decide (i = 63)) := by
+  simp only [Gen.uu_rndLower, BitVec.getLsbD_or, BitVec.getLsbD_ushiftRight, bit_63]
+  grind
+
+/-- version bits of a random ID -/
+theorem rnd_version_bv (a b lo : BitVec 64) : Gen.uu_version (Gen.uu_rndHigher a b) lo = 4#64 := by
+  simp only [Gen.uu_version]
+  rw [version_bits]
+  simp only [rndHigher_bit]
+  grind
+
+/-- top two bits of `Lower` of a random ID built from a 63-bit draw -/
 theorem rnd_variant_bv (a b : BitVec 64) (hb : b.msb = false) :
     Gen.uu_rndLower a b &&& 9223372036854775808#64 ≠ 0#64 ∧
     Gen.uu_rndLower a b &&& 4611686018427387904#64 = 0#64 := by
-  simp only [Gen.uu_rndLower]; bv_decide
+  rw [BitVec.msb_eq_getLsbD_last] at hb
+  rw [and63_ne_zero, and62_eq_zero]
+  simp only [rndLower_bit]
+  grind
 
-/-- the inverse of `RandomID` on IDs with version nibble 4 and variant bits 10 (bv_decide) -/
+/-- the six constant bits -/
+theorem rnd_fixed_bv (a b : BitVec 64) (hb : b.msb = false) :
+    Gen.uu_rndHigher a b &&& 0xf000#64 = 0x4000#64 ∧
+    Gen.uu_rndLower a b &&& 0xc000000000000000#64 = 0x8000000000000000#64 := by
+  rw [BitVec.msb_eq_getLsbD_last] at hb
+  rw [and_f000_eq_4000, and_top2_eq_top]
+  simp only [rndHigher_bit, rndLower_bit]
+  grind
+
+/-- flipping bits outside the version nibble keeps the version nibble -/
+theorem rnd_flip_hi_bv (h mh : BitVec 64) (hv : (h >>> 12) &&& 15#64 = 4#64) (hm : mh &&& 0xf000#64 = 0#64) :
+    ((h ^^^ mh) >>> 12) &&& 15#64 = 4#64 := by
+  rw [version_bits] at hv ⊢
+  rw [and_f000_eq_zero] at hm
+  simp only [BitVec.getLsbD_xor]
+  grind
+
+/-- flipping bits outside the two variant bits keeps them -/
+theorem rnd_flip_lo_bv (l ml : BitVec 64) (h1 : l &&& 9223372036854775808#64 ≠ 0#64)
+    (h2 : l &&& 4611686018427387904#64 = 0#64) (hm : ml &&& 0xc000000000000000#64 = 0#64) :
+    (l ^^^ ml) &&& 9223372036854775808#64 ≠ 0#64 ∧ (l ^^^ ml) &&& 4611686018427387904#64 = 0#64 := by
+  rw [and63_ne_zero] at h1 ⊢
+  rw [and62_eq_zero] at h2 ⊢
+  rw [and_top2_eq_zero] at hm
+  simp only [BitVec.getLsbD_xor]
+  grind
+
+/-- the inverse of `RandomID` on IDs with version nibble 4 and variant bits 10 -/
 theorem rnd_onto_bv (h l : BitVec 64) (hv : (h >>> 12) &&& 15#64 = 4#64)
     (h1 : l &&& 9223372036854775808#64 ≠ 0#64) (h2 : l &&& 4611686018427387904#64 = 0#64) :
     let a := ((h >>> 1) &&& 0x7fffffffffff8000#64) ||| (h &&& 0xfff#64)
     let b := l <<< 1
     a.msb = false ∧ b.msb = false ∧ Gen.uu_rndHigher a b = h ∧ Gen.uu_rndLower a b = l := by
-  simp only [Gen.uu_rndHigher, Gen.uu_rndLower]; bv_decide
-
-/-- the six constant bits (bv_decide) -/
-theorem rnd_fixed_bv (a b : BitVec 64) (hb : b.msb = false) :
-    Gen.uu_rndHigher a b &&& 0xf000#64 = 0x4000#64 ∧
-    Gen.uu_rndLower a b &&& 0xc000000000000000#64 = 0x8000000000000000#64 := by
-  simp only [Gen.uu_rndHigher, Gen.uu_rndLower]; bv_decide
-
-/-- flipping bits outside the version nibble keeps the version nibble (bv_decide) -/
-theorem rnd_flip_hi_bv (h mh : BitVec 64) (hv : (h >>> 12) &&& 15#64 = 4#64) (hm : mh &&& 0xf000#64 = 0#64) :
-    ((h ^^^ mh) >>> 12) &&& 15#64 = 4#64 := by
-  bv_decide
-
-/-- flipping bits outside the two variant bits keeps them (bv_decide) -/
-theorem rnd_flip_lo_bv (l ml : BitVec 64) (h1 : l &&& 9223372036854775808#64 ≠ 0#64)
-    (h2 : l &&& 4611686018427387904#64 = 0#64) (hm : ml &&& 0xc000000000000000#64 = 0#64) :
-    (l ^^^ ml) &&& 9223372036854775808#64 ≠ 0#64 ∧ (l ^^^ ml) &&& 4611686018427387904#64 = 0#64 := by
-  bv_decide
+  rw [version_bits] at hv
+  rw [and63_ne_zero] at h1
+  rw [and62_eq_zero] at h2
+  obtain ⟨v0, v1, v2, v3⟩ := hv
+  intro a b
+  have abit : ∀ i, a.getLsbD i = ((decide (15 ≤ i ∧ i < 63) && h.getLsbD (i + 1)) || (decide (i < 12) && h.getLsbD i)) := by
+    intro i
+    simp only [a, BitVec.getLsbD_and, BitVec.getLsbD_or, BitVec.getLsbD_ushiftRight, bit_fff, bit_mid48]
+    grind
+  have bbit : ∀ i, b.getLsbD i = (decide (1 ≤ i ∧ i < 64) && l.getLsbD (i - 1)) := by
+    intro i
+    simp only [b, BitVec.getLsbD_shiftLeft]
+    grind
+  refine ⟨?_, ?_, ?_, ?_⟩
+  · rw [BitVec.msb_eq_getLsbD_last, abit]; grind
+  · rw [BitVec.msb_eq_getLsbD_last, bbit]; grind
+  · rw [eq_iff_bits]
+    intro i hi
+    rw [rndHigher_bit, abit, abit]
+    rcases (by omega : i < 12 ∨ i = 12 ∨ i = 13 ∨ i = 14 ∨ i = 15 ∨ 16 ≤ i) with c | rfl | rfl | rfl | rfl | c
+    · grind
+    · grind
+    · grind
+    · grind
+    · grind
+    · have : i - 1 + 1 = i := by omega
+      rw [this]
+      grind
+  · rw [eq_iff_bits]
+    intro i hi
+    rw [rndLower_bit, bbit]
+    rcases (by omega : i < 62 ∨ i = 62 ∨ i = 63) with c | rfl | rfl
+    · simp only [Nat.add_sub_cancel]; grind
+    · grind
+    · grind
 
 theorem variant_eq_one_iff (i : ID) :
     i.variant = 1 ↔ i.lo &&& 9223372036854775808#64 ≠ 0#64 ∧ i.lo &&& 4611686018427387904#64 = 0#64 := by
